@@ -1,6 +1,10 @@
 package ast
 
-import "github.com/ajitpratap0/GoSQLX/pkg/models"
+import (
+	"sync"
+
+	"github.com/ajitpratap0/GoSQLX/pkg/models"
+)
 
 // Spanned represents an AST node that has source location information
 type Spanned interface {
@@ -59,16 +63,24 @@ func (a *AST) Span() models.Span {
 	return UnionSpans(spans)
 }
 
-// spanInfo stores source location information for AST nodes
-var spanInfo = make(map[interface{}]models.Span)
+// spanInfo stores source location information for AST nodes.
+// It is shared by all goroutines: every access goes through spanMu.
+var (
+	spanMu   sync.RWMutex
+	spanInfo = make(map[interface{}]models.Span)
+)
 
 // SetSpan sets the source location span for an AST node
 func SetSpan(node interface{}, span models.Span) {
+	spanMu.Lock()
+	defer spanMu.Unlock()
 	spanInfo[node] = span
 }
 
 // GetSpan gets the source location span for an AST node
 func GetSpan(node interface{}) models.Span {
+	spanMu.RLock()
+	defer spanMu.RUnlock()
 	if span, ok := spanInfo[node]; ok {
 		return span
 	}
